@@ -198,6 +198,36 @@ fn check_bare(case: &Value, obs: &mut Obs) -> Result<(), String> {
     }
     // and both agree with the model of the bracketed form
     diff(&bare, data, obs, TraceMode::Multiset)?;
+    // the two spellings are the same operation wherever an expression is evaluated, not only at the top of a rule
+    // (a position that parses its expressions on a path of its own could treat a bracket-less operand differently)
+    for (what, wrap) in [
+        ("operand of cat", (|r: Value| json!({"cat": ["a", r]})) as fn(Value) -> Value),
+        ("literal-array element of some", |r| json!({"some": [[r], true]})),
+        ("literal-array element of all", |r| json!({"all": [[0, r], {"var": ""}]})),
+        ("literal-array element of none", |r| json!({"none": [[r, 1], {"!": [{"var": ""}]}]})),
+        ("map expression", |r| json!({"map": [[1, 2], r]})),
+        ("filter predicate", |r| json!({"filter": [[1], r]})),
+        ("reduce initial value", |r| json!({"reduce": [[], {"var": "current"}, r]})),
+        ("selected if branch", |r| json!({"if": [true, r, 0]})),
+        ("or operand", |r| json!({"or": [0, r]})),
+        ("var default", |r| json!({"var": ["no-such-key", r]})),
+        ("element of merge", |r| json!({"merge": [[1], r]})),
+    ] {
+        let (ra, rb) = (wrap(bare.clone()), wrap(bracketed.clone()));
+        let a = crate::imp::apply_traced(&ra, data);
+        let b = crate::imp::apply_traced(&rb, data);
+        obs.evals += 2;
+        sanity(&a, &ra, data)?;
+        sanity(&b, &rb, data)?;
+        let same = match (&a.out, &b.out) {
+            (crate::imp::Out::Ok(p), crate::imp::Out::Ok(q)) => model::identical(p, q) && a.lines == b.lines,
+            (crate::imp::Out::Err(_), crate::imp::Out::Err(_)) => true,
+            _ => false,
+        };
+        if !same {
+            return Err(format!("as {}: {} -> {} {:?} but {} -> {} {:?} on data {}", what, ra, a.out.short(), a.lines, rb, b.out.short(), b.lines, data));
+        }
+    }
     if arity_ok(op, 1) {
         obs.nt(&format!("{}: accepts one operand, x is {}", op, type_class(x)));
     } else {
@@ -280,7 +310,7 @@ pub fn property() -> Property {
             },
             Sub {
                 name: "bracketless_grid",
-                about: "35 operators x 19 non-array operands (null, booleans, numbers, strings, inert objects, operations such as {\"var\":\"a\"}, erroring and logging operations): {k:x} and {k:[x]} give the identical value and log lines, or both fail.",
+                about: "35 operators x 19 non-array operands (null, booleans, numbers, strings, inert objects, operations such as {\"var\":\"a\"}, erroring and logging operations): {k:x} and {k:[x]} give the identical value and log lines, or both fail - at the top of the rule and in eleven evaluated positions (operand of cat / merge, literal-array element of some / all / none, map expression, filter predicate, reduce initial value, selected if branch, or operand, var default).",
                 nontrivial: "the operator accepts one operand (the two spellings are not both arity errors).",
                 strategy: None,
                 fixed: Some(fixed_bare),
@@ -292,7 +322,7 @@ pub fn property() -> Property {
             },
             Sub {
                 name: "bracketless_generated",
-                about: "generated (operator, non-array operand from the corpus incl. objects that are operations, data): same law.",
+                about: "generated (operator, non-array operand from the corpus incl. objects that are operations, data): same law, same eleven positions.",
                 nontrivial: "as bracketless_grid.",
                 strategy: Some(gen_bare),
                 fixed: None,
